@@ -137,7 +137,10 @@ class BeautifulSoupHTMLParser(HTMLParser, DetectsXMLParsedAsHTML):
         # know that this is an empty-element tag, and we want to call
         # handle_endtag ourselves.
         self.handle_starttag(name, attrs, handle_empty_element=False)
-        self.handle_endtag(name)
+        # This end tag belongs to the start tag we just handled; it must
+        # not be mistaken for the redundant end tag of an earlier
+        # empty-element tag with the same name.
+        self.handle_endtag(name, check_already_closed=False)
 
     def handle_starttag(
         self,
